@@ -221,7 +221,7 @@ func (f *Formatter) formatSQL(sql string) (string, error) {
 	}()
 
 	// Configure formatter options
-	indentStr := strings.Repeat(" ", f.Opts.IndentSize)
+	indentStr := strings.Repeat(" ", max(f.Opts.IndentSize, 0))
 	formatterOpts := FormatterOptions{
 		Indent:       indentStr,
 		Compact:      f.Opts.Compact,
